@@ -55,6 +55,15 @@ CHECKS = {
  "C16": dict(level=EX, design="§4 C16", technique="bounded-exhaustive enumeration of parser-accepted texts (every term form in every slot of every term form) x all (width, indent) configurations; reparse equality and idempotence on every distinct rendering",
     text="For every accepted text and every configuration: parse(print(ast, cfg)) == ast and printing the result again is the identity; a slice runs through the real scc fmt --inplace.",
     note="tree equality = the repository's derived PartialEq (spans ignored)"),
+ "C17": dict(level=MC, design="§4 C17", technique="exhaustive enumeration of owned nondeterminism: all histories of earlier compilations up to a length bound (fresh process each), hash seeds through a getrandom shim, a product of environments; every stage output compared byte-wise (modulo label numbering for histories)",
+    text="Every history over an 8-program alphabet up to length 2/3 x every target, every seed 0..15/0..255 x corpus, and 7 environments x the real scc subcommands are executed; all printable stages must be identical. Distinct outcomes per program are reported (exactly 1 expected).",
+    note="the hash-seed seam relies on std drawing its keys through getrandom(); its effect was observed before the instance-order fix"),
+ "C18": dict(level=EX, design="§4 C18", technique="bounded-exhaustive enumeration of inputs (all token sequences up to length 3/4, all short character strings, all single-token edits of a corpus, boundary literals, nesting depths, entry shapes) through the real front end and, when accepted, all later stages under catch_unwind; byte-level inputs through the real binary",
+    text="No input may make parsing, checking or (for accepted programs with a valid entry point) any later stage panic, other than the capacity assertions. The RV64 print panic is a recorded known finding.",
+    note="1 GiB worker stacks; stack exhaustion excluded by the property"),
+ "C19": dict(level=EX, design="§4 C19", technique="exhaustive enumeration of nine scalable program families at every depth 1..12/16; growth ratio and quadratic cap on the size of every stage output",
+    text="For every family and depth the real pipeline's outputs are measured at six stages: ratio size(k+1)/size(k) <= 1.5 from depth 8 on and size(kmax) <= 64 * source^2.",
+    note="printed length stands for node count"),
  "C20": dict(level=EX, design="§4 C20", technique="exhaustive enumeration over a boundary value set and all argument tuples/arities/wrong counts; io.c compiled unmodified into a harness; echo programs compiled by the real pipeline and run natively; AArch64 entry on the emulator",
     text="print_i64/println_i64 on every boundary value (decimal text, nothing else); every argument tuple over a value set with values beyond 32 bits for arities 0..5 natively (0..7 AArch64 on the emulator); every wrong argument count 0..7 reported without running; exit status = low 8 bits.",
     note="gcc/glibc of the sandbox"),
